@@ -49,7 +49,7 @@ Definition fdsrc_eqb (a b : fdsrc) : bool :=
 Definition reason_eqb (a b : reason) : bool :=
   match a, b with
   | RNoUser, RNoUser | RNoName, RNoName | RNoUid, RNoUid | RNonRoot, RNonRoot
-  | RSetgroups, RSetgroups | RSetgid, RSetgid => true
+  | RSetgroups, RSetgroups | RSetgid, RSetgid | RSetuid, RSetuid => true
   | _, _ => false
   end.
 
